@@ -24,7 +24,7 @@ ASSUMPTIONS = [
     "scores of candidate pairs recomputed by the reference model; ASSD scores within 1e-9 relative count as tied / as hitting the threshold",
     "with many-to-one only the weak no-displacement form is demanded (a taken reference is a valid excuse), as the statement promises no more",
 ]
-BUDGET = {"quick": 200, "thorough": 1500}
+BUDGET = {"quick": 200, "thorough": 2400}
 
 
 def blocks(tier):
